@@ -153,7 +153,7 @@ def run(tier, t0):
         cells[k.split('=')[0]] += v
     want = []
     for lim, ways in (('opcount', ['neutral-units', 'unexecuted-branch', 'multisig-keys', 'multisig-mid', 'phases', 'mixed-units', 'interrupted']), ('stack', ['pushes', 'dup', '2dup', '3dup', 'altstack', 'initial+growth', 'initial-only', 'unexecuted-no-growth']),
-                      ('push', ['pushdata2', 'pushdata4', 'unexecuted', 'initial-stack', 'successor-executed', 'successor-unexecuted']), ('scriptsize', ['pushes', 'nops-unexecuted', 'big-pushes']), ('multisig-keys', ['zero-sigs', 'one-empty-sig', 'keys-from-stack'])):
+                      ('push', ['pushdata2', 'pushdata4', 'unexecuted', 'initial-stack', 'successor-executed', 'successor-unexecuted']), ('scriptsize', ['pushes', 'nops-unexecuted', 'big-pushes', 'p2sh-redeem']), ('multisig-keys', ['zero-sigs', 'one-empty-sig', 'keys-from-stack'])):
         for w in ways:
             for at in (-1, 0, 1):
                 want.append((lim, w, at))
